@@ -395,6 +395,19 @@ def gen_hashseed(ctx):
     def body(case):
         check_hashseed(case)
         ctx.count(key=case, nontrivial=True, classes=["hashseed:" + case["job"]["kind"]])
+    if ctx.shard == 0:
+        # words in which a bracket stands between dashes: the order in which the bracket names are substituted matters
+        # for them ('-(-' contains the name '-LRB-' after one substitution), so the order must be fixed
+        def tok(word, num):
+            return {"w": word, "p": "NN", "n": num, "e": "--", "lem": "--", "m": "--"}
+        words = ["3-(-2)", "a-[-b", "x-}-y", "(-)-(", "-)-"]
+        root = {"l": "VROOT", "e": "--", "lem": "--", "m": "--", "c": [{"l": "S", "e": "--", "lem": "--", "m": "--", "c": [tok(w, i + 1) for i, w in enumerate(words)]}]}
+        for dest in ("discobrackets", "brackets"):
+            case = {"job": {"kind": "transform", "src_fmt": "export", "dest_fmt": dest, "trans": [], "trees": [{"sid": 1, "root": root}]}}
+            try:
+                ctx.run_case(body, case)
+            except Violation as vio:
+                ctx.record(vio)
     ctx.hyp(st.fixed_dictionaries({"job": job_strategy(kinds=("grammar", "grammar", "grammar", "transform", "analysis"), wide=True)}), body, max_examples=8 if quick else 40, shrink=False)
 
 
